@@ -476,7 +476,14 @@ func c21Decode(pe *syntax.ParamExp, src string) (*c21PE, string) {
 		}
 		d.op = name
 		var err error
-		if d.arg, err = expand.Literal(cfg0, pe.Exp.Word); err != nil {
+		switch pe.Exp.Op {
+		case syntax.RemSmallPrefix, syntax.RemLargePrefix, syntax.RemSmallSuffix, syntax.RemLargeSuffix,
+			syntax.UpperFirst, syntax.UpperAll, syntax.LowerFirst, syntax.LowerAll:
+			d.arg, err = expand.Pattern(cfg0, pe.Exp.Word) // Config.expArg
+		default:
+			d.arg, err = expand.Literal(cfg0, pe.Exp.Word)
+		}
+		if err != nil {
 			return nil, "arg-error"
 		}
 		d.argQuoted = c21WordQuoted(pe.Exp.Word)
@@ -501,6 +508,9 @@ func c21ErrKind(err error) string {
 		return "err negindex"
 	case "unsupported":
 		return "err unsupported"
+	}
+	if n, ok := strings.CutSuffix(err.Error(), ": substring expression < 0"); ok {
+		return "err substr " + n
 	}
 	return "err other:" + hx(err.Error())
 }
@@ -1318,9 +1328,8 @@ func c21Remove(c *Ctx, s, pat string, fromEnd, shortest bool) {
 		pre, suf = c21Bits(rx, s, true), c21Bits(rx, s, false)
 	}
 	c.Op("rm "+hx(s)+" "+b(fromEnd)+" "+b(shortest)+" "+status+" "+pre+" "+suf, got)
-	// the property's own reading (shortest/longest matching prefix/suffix), outside finding
-	// C21-suffix-newline (a newline in the value with the shortest-suffix operator)
-	if got != "panic" && err == nil && !(fromEnd && shortest && strings.Contains(s, "\n")) {
+	// the property's own reading (shortest/longest matching prefix/suffix)
+	if got != "panic" && err == nil {
 		c.Op("specrm "+hx(s)+" "+hx(pat)+" "+b(fromEnd)+" "+b(shortest), got)
 	}
 	c.Case("rm\x00"+s+"\x00"+pat+b(fromEnd)+b(shortest), got != hx(s), "unit=rm")
@@ -1358,25 +1367,7 @@ func c21Units(c *Ctx, r *Rand) {
 		lens := []string{"", "0", "1", "3", "9", "-1", "-2", "-9"}
 		o, l := r.Pick(offs), r.Pick(lens)
 		n := utf8.RuneCountInString(s)
-		// outside finding C21-negative-length: a negative length that ends before the offset
-		if l != "" && l[0] == '-' {
-			li, _ := strconv.Atoi(l)
-			start := 0
-			if o != "" {
-				oi, _ := strconv.Atoi(o)
-				switch {
-				case oi >= 0:
-					start = min(oi, n)
-				case n+oi >= 0:
-					start = n + oi
-				default:
-					start = n
-				}
-			}
-			if n+li < start {
-				return
-			}
-		}
+		_ = n
 		src := "${x:"
 		if o != "" {
 			src += "(" + o + ")"
@@ -1385,9 +1376,23 @@ func c21Units(c *Ctx, r *Rand) {
 			src += ":(" + l + ")"
 		}
 		src += "}"
-		got, ok := c21LitOf(c, src, st)
-		if !ok {
+		w, _, perr := c21Parse(src, true)
+		if perr != "" {
 			return
+		}
+		res := "?"
+		if p := safely(func() {
+			v, err := expand.Literal(&expand.Config{Env: st.env()}, w)
+			switch {
+			case err == nil:
+				res = "ok " + hx(v)
+			case strings.HasSuffix(err.Error(), ": substring expression < 0"):
+				res = "error"
+			default:
+				res = c21ErrKind(err)
+			}
+		}); p != "" {
+			res = "panic"
 		}
 		tok := func(x string) string {
 			if x == "" {
@@ -1395,7 +1400,7 @@ func c21Units(c *Ctx, r *Rand) {
 			}
 			return x
 		}
-		c.Op("specsub "+hx(s)+" "+tok(o)+" "+tok(l), "ok "+hx(got))
+		c.Op("specsub "+hx(s)+" "+tok(o)+" "+tok(l), res)
 		c.Case("sub\x00"+s+o+":"+l, true, "unit=sub")
 	case 1: // replace, unanchored
 		pat := c21GenPat(r)
@@ -1789,42 +1794,12 @@ func c21Excluded(cs c21Case, d *c21PE) string {
 			}
 		}
 	}
-	if !cs.quoted && ifsNonWs {
-		// field splitting at non-white-space IFS characters is C22's subject (adjacent / leading /
-		// trailing delimiters, the re-join of $@): compared only when no such character can occur
-		nonws := strings.Trim(ifs, " \t\n")
-		all := append([]string{d.arg, d.with}, cs.st.params...)
-		for _, n := range cs.st.names {
-			v := cs.st.vars[n]
-			all = append(all, v.str)
-			all = append(all, v.list...)
-		}
-		for _, s := range all {
-			if strings.ContainsAny(s, nonws) {
-				return "c22-nonws-ifs"
-			}
-		}
-		if isList && (d.kind != 'N' || d.excl) {
-			return "c22-nonws-ifs" // an operator may produce empty or delimiter-adjacent elements
-		}
-		if isList {
-			for _, e := range elems {
-				if e == "" {
-					return "c22-nonws-ifs"
-				}
-			}
-		}
-	}
-
 	// --- recorded findings
 	if d.kind == 'R' && d.anchor != 'n' {
 		return "C21-anchored-replace"
 	}
 	if d.kind == 'R' && d.origSrcSlash {
 		return "C21-replace-leading-slash"
-	}
-	if (remove || caseOp) && d.argQuoted {
-		return "C21-quoted-pattern-arg"
 	}
 	if assign && (kind == 'p' || d.name == "#" || (d.name[0] >= '0' && d.name[0] <= '9')) {
 		return "C21-assign-special"
@@ -1839,14 +1814,12 @@ func c21Excluded(cs c21Case, d *c21PE) string {
 		return "scalar-negative-subscript" // bash: `bad array subscript`, then irregular (unset for the test operators)
 	}
 	if d.excl && d.names == 0 {
-		if d.idxKind == 'w' || d.idxKind == 'e' {
-			return "C21-indirect-subscript"
-		}
 		if d.idxKind == '@' || d.idxKind == '*' {
 			if kind == 's' || kind == 'u' {
 				return "C21-keys-of-scalar"
 			}
 		} else {
+			// ${!r}, ${!a[i]}: an indirection through the (element) value
 			if d.kind != 'N' {
 				return "C21-indirect-then-op"
 			}
@@ -1856,18 +1829,16 @@ func c21Excluded(cs c21Case, d *c21PE) string {
 			if kind == 'u' && d.name[0] >= '0' && d.name[0] <= '9' {
 				return "C21-indirect-unset-positional"
 			}
-			if val, set := c21ElemValue(cs, d); set && cs.st.vars[val].kind == 'a' {
-				return "C21-indirect-assoc-zero"
+			val, set := c21ElemValue(cs, d)
+			if !set && kind != 'u' {
+				return "indirect-unset-element" // bash: invalid indirect expansion; interp: empty (the variable is set)
 			}
-			if val, set := c21ElemValue(cs, d); set && !c21ValidName(val) {
+			if set && !c21ValidName(val) {
 				if _, err := strconv.Atoi(val); err != nil || val == "0" {
 					return "C21-indirect-invalid-name"
 				}
 			}
 		}
-	}
-	if d.length && isList && kind == 'a' {
-		return "C21-assoc-list-joined-count"
 	}
 	if d.kind == 'S' && isList && kind == 'a' {
 		return "assoc-slice-unspecified" // bash slices an associative array in hash order
@@ -1900,74 +1871,26 @@ func c21Excluded(cs c21Case, d *c21PE) string {
 	if cs.quoted && isList && testOp && kind != 's' {
 		return "C21-quoted-list-test-op"
 	}
-	if !cs.quoted && isList && testOp && listVar && len(elems) == 0 && (d.op == "-" || d.op == "+" || d.op == "=" || d.op == "?") {
+	if !cs.quoted && isList && testOp && (kind == 'i' || kind == 'p') && len(elems) == 0 && (d.op == "-" || d.op == "+" || d.op == "=" || d.op == "?") {
 		return "C21-empty-list-is-unset"
 	}
 	if isList && listVar && d.kind == 'X' && d.op == "@" {
 		return "C21-list-transform"
 	}
-	if d.kind == 'X' && d.op == "@" && d.arg == "Q" && !isList {
-		if _, set := c21ElemValue(cs, d); !set {
-			return "C21-quote-unset"
-		}
-	}
-	if d.kind == 'X' && d.op == "@" && d.arg == "Q" && isList && !listVar && kind == 'u' {
-		return "C21-quote-unset"
-	}
-	if d.kind == 'R' && !isList {
-		if _, set := c21ElemValue(cs, d); !set {
-			if expr, err := pattern.Regexp(d.orig, 0); err == nil && d.orig != "" {
-				if rx, err := regexp.Compile("^(?:" + expr + ")$"); err == nil && rx.MatchString("") {
-					return "C21-replace-unset-empty-match"
-				}
-			}
-		}
-	}
-	if d.kind == 'R' && isList && kind == 'u' {
-		if expr, err := pattern.Regexp(d.orig, 0); err == nil && d.orig != "" {
-			if rx, err := regexp.Compile("^(?:" + expr + ")$"); err == nil && rx.MatchString("") {
-				return "C21-replace-unset-empty-match"
-			}
-		}
-	}
-	if !cs.quoted && isList && kind == 'a' && len(elems) >= 2 && (d.kind == 'R' || (d.kind == 'X' && !testOp)) {
-		return "C21-assoc-list-joined-ops"
-	}
 	if !cs.quoted && isList && listVar && len(elems) >= 2 && (d.kind == 'R' || d.kind == 'X' || (d.excl && d.names == 0)) && cs.st.ifsSet {
 		star := d.name == "*" || d.idxKind == '*'
-		if (!star && !strings.Contains(ifs, " ")) || (star && ifs == "") {
+		// joined with a space (the first IFS character for *) and split again: elements merge when
+		// IFS has no space, and empty elements vanish where bash delimits them with a
+		// non-white-space IFS character
+		if (!star && !strings.Contains(ifs, " ")) || (star && ifs == "") || ifsNonWs {
 			return "C21-unquoted-list-op-ifs"
 		}
 	}
 	if !cs.quoted && d.excl && d.names == 2 && cs.st.ifsSet && !strings.Contains(ifs, " ") {
 		return "C21-unquoted-list-op-ifs"
 	}
-	if cs.quoted && isList && kind == 'a' && len(elems) == 0 && d.idxKind == '@' {
-		return "C21-empty-assoc-one-field"
-	}
-	if cs.quoted && d.excl && d.names == 2 {
-		// "${!prefix@}" without a match
-		match := false
-		for _, n := range cs.st.names {
-			if cs.st.vars[n].kind != 'u' && strings.HasPrefix(n, d.name) {
-				match = true
-			}
-		}
-		if !match {
-			return "C21-empty-assoc-one-field"
-		}
-	}
-	if d.kind == 'X' && d.op == "%" {
-		es := elems
-		if !isList {
-			v, _ := c21ElemValue(cs, d)
-			es = []string{v}
-		}
-		for _, e := range es {
-			if strings.Contains(e, "\n") {
-				return "C21-suffix-newline"
-			}
-		}
+	if kind == 'a' && !cs.quoted && isList && ifsNonWs && len(elems) >= 2 {
+		return "assoc-order" // where the delimiters fall depends on bash's hash order
 	}
 	if kind == 'a' && cs.quoted && d.idxKind == '*' && len(elems) >= 2 {
 		return "assoc-order" // bash joins in hash order
